@@ -501,7 +501,33 @@ def pipeline_items():
 MASS = {'H': 1, 'C': 12, 'N': 14, 'O': 16, 'S': 32, 'P': 31}      # the documented element masses of AttachMass
 CLI_FRAGMENTS = ['bta15-18', 'bta19-22', 'bta27-30', 'bta11-14', 'ala5']
 CLI_OPTIONS = {'default': [], 'elastic': ['-elastic'], 'martini22': ['-ff', 'martini22'], 'sep-posres': ['-sep', '-p', 'backbone'],
+               'user-map': ['-map-dir', 'user_map'],
                'write-repair': ['-write-repair', 'repair.pdb'], 'write-canon-graph': ['-write-canon', 'canon.pdb', '-write-graph', 'graph.pdb']}
+
+
+USER_MAP_ALA = '''[ molecule ]
+ALA
+[from]
+charmm
+[to]
+martini3001
+[ martini ]
+BB SC1
+[ mapping ]
+charmm27 charmm36
+[ atoms ]
+    1     N    !BB
+    2    HN    !BB
+    3    CA    BB BB BB SC1
+    4    HA    !BB
+    5    CB    SC1
+    6   HB1    !SC1
+    7   HB2    !SC1
+    8   HB3    !SC1
+    9     C    BB
+   10     O    !BB
+'''
+USER_ALA_TABLE = {'N': {'BB': 0.0}, 'CA': {'BB': 0.75, 'SC1': 0.25}, 'CB': {'SC1': 1.0}, 'C': {'BB': 1.0}, 'O': {'BB': 0.0}}
 
 
 def shipped_weights(to_ff, resname):
@@ -554,6 +580,11 @@ def cli_case(item, acc):
     try:
         with open(os.path.join(base, 'in.pdb'), 'w') as handle:
             handle.write(c11.render_pdb(atoms))
+        if opts == 'user-map':
+            # a mapping given with -map-dir re-defines ALA (other weights than the shipped file): the user's declaration counts
+            os.makedirs(os.path.join(base, 'user_map'))
+            with open(os.path.join(base, 'user_map', 'ala.charmm36.map'), 'w') as handle:
+                handle.write(USER_MAP_ALA)
         res = cli.run_inprocess(['-f', 'in.pdb', '-x', 'cg.pdb', '-o', 'topol.top', '-maxwarn', '100'] + CLI_OPTIONS[opts], base)
         if res['exit'] != 0:
             acc.case(outcome=('cli-exit', res['exit']))
@@ -570,7 +601,7 @@ def cli_case(item, acc):
     problems = []
     checked = 0
     for ridx, (res, resname, members) in list(enumerate(residues))[1:-1]:          # inner residues: no terminal modification
-        table = shipped_weights(to_ff, resname)
+        table = USER_ALA_TABLE if (opts == 'user-map' and resname == 'ALA') else shipped_weights(to_ff, resname)
         if table is None or any(atom['name'].strip() not in table for atom in members):
             continue      # input atom names that are not the force field's own (ILE CD1): which table line applies is RepairGraph's business (C04)
         if not any(int(b['resid']) == ridx + 1 and b['resname'].strip() == resname for b in beads):
